@@ -119,11 +119,9 @@ Proof.
       { (* nothing to scramble *) unfold sinv; cbn [fst buf wo scr send c0s c0e c1s c1e]. split; [assumption|]. split; [lia|]. split; [reflexivity|]. intros i Hi. lia. }
       set (r := find_sni_ech (W ++ p)) in *.
       set (E := zlen (W ++ p)) in *.
-      assert (Hca : cut_ok E (sPos r + sLen r / 2) (sPos r + sLen r)).
-      { unfold cut_ok, Inv, uframes_InvalidByteCount. destruct Hsp as [Hsp|Hsp].
-        - rewrite Hsp. destruct (Z.eq_dec (-1 + sLen r / 2) (-1)); [left; assumption|right].
-          assert (0 <= sLen r / 2 <= sLen r) by (split; [apply Z.div_pos; lia|apply Z.div_le_upper_bound; lia]). lia.
-        - right. assert (0 <= sLen r / 2 <= sLen r) by (split; [apply Z.div_pos; lia|apply Z.div_le_upper_bound; lia]). lia. }
+      assert (Hca : sPos r <> -1 -> cut_ok E (sPos r + sLen r / 2) (sPos r + sLen r)).
+      { intros Hn. unfold cut_ok. right. destruct Hsp as [Hsp|Hsp]; [congruence|].
+        assert (0 <= sLen r / 2 <= sLen r) by (split; [apply Z.div_pos; lia|apply Z.div_le_upper_bound; lia]). lia. }
       assert (Hcb : cut_ok E (if 0 <? ePos r then ePos r + 1 else Inv) (if 0 <? ePos r then Z.min (ePos r + 1 + 16) E else Inv)).
       { unfold cut_ok. destruct (Z.ltb_spec 0 (ePos r)); [right|left; reflexivity].
         destruct Hep as [Hep|Hep]; lia. }
@@ -132,7 +130,9 @@ Proof.
       { intros x0 x1 y0 y1 Hx Hy. unfold sinv; cbn [buf wo scr send c0s c0e c1s c1e].
         split; [assumption|]. split; [lia|]. split; [reflexivity|]. right.
         repeat split; try lia; try assumption. }
-      destruct (0 <? ePos r) eqn:Eep; rewrite ?Eep in Hcb; destruct (negb (_ =? Inv) && negb (_ <? _)); cbn [fst]; apply Hfin; first [assumption | left; reflexivity].
+      destruct (Z.eqb_spec (sPos r) (-1)) as [Hs1|Hs1]; destruct (0 <? ePos r) eqn:Eep; rewrite ?Eep in Hcb; cbv beta iota;
+        destruct (negb (_ =? Inv) && ((_ =? Inv) || negb (_ <? _))); cbn [fst]; apply Hfin;
+        first [assumption | apply Hca; assumption | left; assumption | left; reflexivity].
     + (* cuts already computed, cuts[0] still valid: only the buffer grows *)
       unfold sinv; cbn [fst buf wo scr send c0s c0e c1s c1e]. split; [assumption|]. split; [lia|]. split; [reflexivity|].
       destruct Hm as [(Hc & _)|Hm]; [congruence|right].
@@ -183,6 +183,102 @@ Proof.
     intros i Hi. destruct (Z.lt_ge_cases i w); [apply Hold, Hcov; lia|apply Hnew; lia].
 Qed.
 
+Lemma m1_intro W fs w e a0 a1 b0 b1 :
+  Forall (true_frame W) fs -> 0 <= w <= zlen W -> 4 <= e -> e = 4 + hl3 W -> w <= e -> e <= zlen W ->
+  (a0 = -1 \/ (0 <= a0 <= a1 /\ a1 <= e)) -> (b0 = -1 \/ (0 <= b0 <= b1 /\ b1 <= e)) ->
+  (forall i, 0 <= i < w -> covers fs i \/ (a0 <> -1 /\ a0 <= i < a1) \/ (b0 <> -1 /\ b0 <= i < b1)) ->
+  sinv W fs (mkS W w true e a0 a1 b0 b1).
+Proof.
+  intros. unfold sinv, cut_ok, pending; cbn [buf wo scr send c0s c0e c1s c1e]. rewrite Inv_val.
+  split; [assumption|]. split; [assumption|]. split; [reflexivity|]. right. repeat split; try lia; auto.
+Qed.
+
+Lemma fin_intro W fs e a0 a1 b0 b1 :
+  Forall (true_frame W) fs -> 0 <= e <= zlen W -> (forall i, 0 <= i < e -> covers fs i) ->
+  sinv W fs (finish (mkS W e true e a0 a1 b0 b1)).
+Proof.
+  intros. unfold sinv, finish; cbn [buf wo scr send c0s c0e c1s c1e].
+  split; [assumption|]. split; [assumption|]. split; [reflexivity|assumption].
+Qed.
+
+(* phase 2 (writeOffset = end): the skipped parts, empty cuts dropped *)
+Lemma pop_phase2_inv W fs e a0 a1 b0 b1 m :
+  Forall (true_frame W) fs -> 4 <= e -> e = 4 + hl3 W -> e <= zlen W ->
+  (a0 = -1 \/ (0 <= a0 <= a1 /\ a1 <= e)) -> (b0 = -1 \/ (0 <= b0 <= b1 /\ b1 <= e)) ->
+  (forall i, 0 <= i < e -> covers fs i \/ (a0 <> -1 /\ a0 <= i < a1) \/ (b0 <> -1 /\ b0 <= i < b1)) ->
+  match pop (mkS W e true e a0 a1 b0 b1) m with
+  | Ok (s', fo) => sinv W (push fs fo) s'
+  | _ => False
+  end.
+Proof.
+  intros Htrue H4 Hs Hle Hc0 Hc1 Hcov. pose proof (zlen_nonneg W) as HW0.
+  unfold pop. cbn [buf wo scr send c0s c0e c1s c1e negb]. rewrite Z.eqb_refl.
+  (* the three shapes of a cut: invalid, valid and empty, valid and non-empty *)
+  assert (Ca : a0 = -1 \/ (a0 <> -1 /\ a1 <= a0) \/ (a0 <> -1 /\ a0 < a1)) by lia.
+  assert (Cb : b0 = -1 \/ (b0 <> -1 /\ b1 <= b0) \/ (b0 <> -1 /\ b0 < b1)) by lia.
+  destruct Ca as [Ca|[Ca|Ca]].
+  3: { (* cuts[0] has bytes to send *)
+    unfold drop_empty0. cbn [buf wo scr send c0s c0e c1s c1e]. rewrite ?Inv_val.
+    replace (negb (a0 =? -1) && (a1 <=? a0)) with false by lia.
+    cbn [c0s]. replace (negb (a0 =? -1)) with true by lia.
+    unfold pop_cut. cbn [buf wo scr send c0s c0e c1s c1e].
+    set (n := Z.min (max_data_len a0 m) (a1 - a0)).
+    destruct (Z.leb_spec n 0); [unfold push; apply m1_intro; auto; lia|].
+    destruct Hc0 as [?|Hc0]; [lia|].
+    destruct (emit_ok W fs a0 n Htrue ltac:(lia) ltac:(lia) ltac:(lia)) as (Ht' & Hnew & Hold).
+    unfold in_buf. replace ((0 <=? a0) && (a0 + n <=? zlen W)) with true by lia. cbn [negb].
+    unfold drop_empty1. cbn [buf wo scr send c0s c0e c1s c1e]. rewrite ?Inv_val.
+    destruct (Z.eqb_spec (a0 + n) a1) as [Hd|Hd]; cbn [negb orb andb].
+    - (* cuts[0] finished *)
+      destruct Cb as [Cb|[Cb|Cb]].
+      + replace (negb (b0 =? -1) && (b1 <=? b0)) with false by lia. cbn [c1s].
+        replace (negb (b0 =? -1)) with false by lia. unfold push. apply fin_intro; [assumption|lia|].
+        intros i Hi. destruct (Hcov i Hi) as [?|[?|?]]; [auto|apply Hnew; lia|lia].
+      + replace (negb (b0 =? -1) && (b1 <=? b0)) with true by lia. cbn [c1s]. rewrite ?Inv_val.
+        replace (negb (-1 =? -1)) with false by reflexivity. unfold push. apply fin_intro; [assumption|lia|].
+        intros i Hi. destruct (Hcov i Hi) as [?|[?|?]]; [auto|apply Hnew; lia|lia].
+      + replace (negb (b0 =? -1) && (b1 <=? b0)) with false by lia. cbn [c1s].
+        replace (negb (b0 =? -1)) with true by lia. unfold push. apply m1_intro; auto; try lia.
+        intros i Hi. destruct (Hcov i Hi) as [?|[?|?]]; [auto|left; apply Hnew; lia|right; right; lia].
+    - (* cuts[0] continues *)
+      assert (Hcov' : forall i, 0 <= i < e -> covers (fs ++ [(a0, slice W a0 n)]) i \/
+                 (a0 + n <> -1 /\ a0 + n <= i < a1) \/ (b0 <> -1 /\ b0 <= i < b1)).
+      { intros i Hi. destruct (Hcov i Hi) as [?|[?|?]]; [auto| |right; right; assumption].
+        destruct (Z.lt_ge_cases i (a0 + n)); [left; apply Hnew; lia|right; left; lia]. }
+      destruct (negb (b0 =? -1) && (b1 <=? b0)) eqn:Eb; unfold push; apply m1_intro; auto; try lia.
+      intros i Hi. destruct (Hcov' i Hi) as [?|[?|?]]; [auto|auto|lia]. }
+  (* cuts[0] invalid or empty: after the first iteration it is invalid *)
+  all: assert (E0 : exists a1', drop_empty0 (mkS W e true e a0 a1 b0 b1) = mkS W e true e (-1) a1' b0 b1)
+         by (unfold drop_empty0; cbn [buf wo scr send c0s c0e c1s c1e]; rewrite Inv_val;
+             first [ replace (negb (a0 =? -1) && (a1 <=? a0)) with false by lia; subst a0; eexists; reflexivity
+                   | replace (negb (a0 =? -1) && (a1 <=? a0)) with true by lia; eexists; reflexivity ]).
+  all: destruct E0 as (a1' & ->); cbn [c0s]; rewrite Inv_val; replace (negb (-1 =? -1)) with false by reflexivity.
+  all: assert (Hcovb : forall i, 0 <= i < e -> covers fs i \/ (b0 <> -1 /\ b0 <= i < b1))
+         by (intros i Hi; destruct (Hcov i Hi) as [?|[?|?]]; [auto|lia|auto]).
+  all: destruct Cb as [Cb|[Cb|Cb]].
+  all: unfold drop_empty1; cbn [buf wo scr send c0s c0e c1s c1e]; rewrite ?Inv_val.
+  (* cuts[1] invalid, empty: nothing left, continue with the default splitter *)
+  1,2,4,5: first [ replace (negb (b0 =? -1) && (b1 <=? b0)) with false by lia
+                 | replace (negb (b0 =? -1) && (b1 <=? b0)) with true by lia ];
+    cbn [c1s]; rewrite ?Inv_val;
+    first [ replace (negb (b0 =? -1)) with false by lia | replace (negb (-1 =? -1)) with false by reflexivity ];
+    (apply base_pop_inv; [|reflexivity]); apply fin_intro; [assumption|lia|];
+    intros i Hi; destruct (Hcovb i Hi) as [?|?]; [assumption|lia].
+  (* cuts[1] has bytes to send *)
+  all: replace (negb (b0 =? -1) && (b1 <=? b0)) with false by lia; cbn [c1s];
+    replace (negb (b0 =? -1)) with true by lia;
+    unfold pop_cut; cbn [buf wo scr send c0s c0e c1s c1e];
+    set (n := Z.min (max_data_len b0 m) (b1 - b0));
+    (destruct (Z.leb_spec n 0); [unfold push; apply m1_intro; auto; try lia; intros i Hi; destruct (Hcovb i Hi); auto|]);
+    (destruct Hc1 as [?|Hc1]; [lia|]);
+    destruct (emit_ok W fs b0 n Htrue ltac:(lia) ltac:(lia) ltac:(lia)) as (Ht' & Hnew & Hold);
+    unfold in_buf; replace ((0 <=? b0) && (b0 + n <=? zlen W)) with true by lia; cbn [negb];
+    (destruct (Z.eqb_spec (b0 + n) b1) as [Hd|Hd]; cbn [negb orb andb]; unfold push;
+     [ apply fin_intro; [assumption|lia|]; intros i Hi; destruct (Hcovb i Hi) as [?|?]; [auto|apply Hnew; lia]
+     | apply m1_intro; auto; try lia; intros i Hi; destruct (Hcovb i Hi) as [?|?]; [auto|];
+       destruct (Z.lt_ge_cases i (b0 + n)); [left; apply Hnew; lia|right; right; lia] ]).
+Qed.
+
 Lemma pop_inv W fs s m :
   sinv W fs s ->
   match pop s m with
@@ -190,71 +286,26 @@ Lemma pop_inv W fs s m :
   | _ => False
   end.
 Proof.
-  intros Hinv. unfold pop. destruct (scr s) eqn:Hsc; cbn [negb]; [|apply base_pop_inv; assumption].
+  intros Hinv. destruct (scr s) eqn:Hsc; [|unfold pop; rewrite Hsc; cbn [negb]; apply base_pop_inv; assumption].
   destruct Hinv as (Htrue & Hwo & Hmode). rewrite Hsc in Hmode.
   destruct s as [b w sc e a0 a1 b0 b1]. cbn [buf wo scr send c0s c0e c1s c1e] in *. subst sc.
   destruct Hmode as (-> & Hm). pose proof (zlen_nonneg W) as HW0.
-  unfold pop_cut, finish, in_buf. cbn [buf wo scr send c0s c0e c1s c1e]. rewrite !Inv_val.
   destruct Hm as [(-> & -> & -> & ->)|Hm].
-  { (* cuts not computed yet: scrambling is switched off *)
-    rewrite Inv_val. cbn. unfold sinv, push; cbn [buf wo scr send c0s c0e c1s c1e].
+  { (* cuts not computed yet: scrambling is switched off, the default splitter takes over *)
+    unfold pop, drop_empty0, drop_empty1. cbn [buf wo scr send c0s c0e c1s c1e negb]. rewrite ?Inv_val.
+    change (0 =? 0) with true. change (-1 =? -1) with true. cbn [negb andb c0s c1s buf wo scr send c0e c1e].
+    rewrite ?Inv_val. change (-1 =? -1) with true. cbn [negb andb c0s c1s buf wo scr send c0e c1e].
+    rewrite ?Inv_val. change (-1 =? -1) with true. cbn [negb andb c0s c1s buf wo scr send c0e c1e].
+    apply base_pop_inv; [|reflexivity].
+    unfold sinv, finish; cbn [buf wo scr send c0s c0e c1s c1e].
     split; [assumption|]. split; [lia|]. split; [reflexivity|]. intros i Hi; lia. }
   destruct Hm as (H4 & Hs & Hw & Hle & Hc0 & Hc1 & Hcov).
   unfold cut_ok in Hc0, Hc1. unfold pending in Hcov. cbn [c0s c0e c1s c1e] in Hcov. rewrite Inv_val in *.
-  destruct (Z.eqb_spec w e) as [Hwe|Hwe].
-  - (* phase 2: the skipped parts *)
-    subst w.
-    destruct (Z.eqb_spec a0 (-1)) as [Ha|Ha]; cbn [negb].
-    + destruct (Z.eqb_spec b0 (-1)) as [Hb|Hb]; cbn [negb].
-      * (* nothing left *)
-        unfold sinv, push; cbn [buf wo scr send c0s c0e c1s c1e].
-        split; [assumption|]. split; [lia|]. split; [reflexivity|].
-        intros i Hi. destruct (Hcov i Hi) as [?|[?|?]]; [assumption|lia|lia].
-      * (* cuts[1] *)
-        destruct Hc1 as [?|Hc1]; [lia|].
-        set (n := Z.min (max_data_len b0 m) (b1 - b0)).
-        destruct (Z.leb_spec n 0).
-        { unfold sinv, push; cbn [buf wo scr send c0s c0e c1s c1e]. split; [assumption|]. split; [lia|].
-          split; [reflexivity|]. right. unfold cut_ok, pending; cbn [c0s c0e c1s c1e]. rewrite Inv_val.
-          repeat split; try lia; auto. }
-        destruct (emit_ok W fs b0 n Htrue ltac:(lia) ltac:(lia) ltac:(lia)) as (Ht' & Hnew & Hold).
-        replace ((0 <=? b0) && (b0 + n <=? zlen W)) with true by lia. cbn [negb].
-        destruct (Z.eqb_spec (b0 + n) b1) as [Hd|Hd]; cbn [negb orb andb].
-        { unfold sinv, push; cbn [buf wo scr send c0s c0e c1s c1e].
-          split; [assumption|]. split; [lia|]. split; [reflexivity|].
-          intros i Hi. destruct (Hcov i Hi) as [?|[?|?]]; [auto|lia|apply Hnew; lia]. }
-        { unfold sinv, push; cbn [buf wo scr send c0s c0e c1s c1e].
-          split; [assumption|]. split; [lia|]. split; [reflexivity|]. right.
-          unfold cut_ok, pending; cbn [c0s c0e c1s c1e]. rewrite Inv_val.
-          repeat split; try lia; auto.
-          intros i Hi. destruct (Hcov i Hi) as [?|[?|?]]; [auto|lia|].
-          destruct (Z.lt_ge_cases i (b0 + n)); [left; apply Hnew; lia|right; right; lia]. }
-    + (* cuts[0] *)
-      destruct Hc0 as [?|Hc0]; [lia|].
-      set (n := Z.min (max_data_len a0 m) (a1 - a0)).
-      destruct (Z.leb_spec n 0).
-      { unfold sinv, push; cbn [buf wo scr send c0s c0e c1s c1e]. split; [assumption|]. split; [lia|].
-        split; [reflexivity|]. right. unfold cut_ok, pending; cbn [c0s c0e c1s c1e]. rewrite Inv_val.
-        repeat split; try lia; auto. }
-      destruct (emit_ok W fs a0 n Htrue ltac:(lia) ltac:(lia) ltac:(lia)) as (Ht' & Hnew & Hold).
-      replace ((0 <=? a0) && (a0 + n <=? zlen W)) with true by lia. cbn [negb].
-      destruct (Z.eqb_spec (a0 + n) a1) as [Hd|Hd]; cbn [negb orb andb].
-      * destruct (Z.eqb_spec b0 (-1)) as [Hb|Hb]; cbn [negb].
-        { unfold sinv, push; cbn [buf wo scr send c0s c0e c1s c1e].
-          split; [assumption|]. split; [lia|]. split; [reflexivity|].
-          intros i Hi. destruct (Hcov i Hi) as [?|[?|?]]; [auto|apply Hnew; lia|lia]. }
-        { unfold sinv, push; cbn [buf wo scr send c0s c0e c1s c1e].
-          split; [assumption|]. split; [lia|]. split; [reflexivity|]. right.
-          unfold cut_ok, pending; cbn [c0s c0e c1s c1e]. rewrite Inv_val.
-          repeat split; try lia; auto.
-          intros i Hi. destruct (Hcov i Hi) as [?|[?|?]]; [auto|left; apply Hnew; lia|right; right; lia]. }
-      * unfold sinv, push; cbn [buf wo scr send c0s c0e c1s c1e].
-        split; [assumption|]. split; [lia|]. split; [reflexivity|]. right.
-        unfold cut_ok, pending; cbn [c0s c0e c1s c1e]. rewrite Inv_val.
-        repeat split; try lia; auto.
-        intros i Hi. destruct (Hcov i Hi) as [?|[?|?]]; [auto| |right; right; lia].
-        destruct (Z.lt_ge_cases i (a0 + n)); [left; apply Hnew; lia|right; left; lia].
-  - (* phase 1: up to the next cut *)
+  destruct (Z.eq_dec w e) as [Hwe|Hwe]; [subst w; apply pop_phase2_inv; assumption|].
+  unfold pop, in_buf. cbn [buf wo scr send c0s c0e c1s c1e negb]. rewrite ?Inv_val.
+  destruct (Z.eqb_spec w e) as [?|_]; [contradiction|].
+  idtac.
+  (* phase 1: up to the next cut *)
     set (sel := if negb (a0 =? -1) && (w <? a0) then (a0, a1)
                 else if negb (b0 =? -1) && (w <? b0) then (b0, b1) else (-1, -1)).
     assert (Hsel : fst sel = -1 \/ (w < fst sel /\ 0 <= fst sel <= snd sel /\ snd sel <= e
@@ -371,7 +422,7 @@ Proof.
   apply run_scr_false in E; [congruence|reflexivity].
 Qed.
 
-(* ---------- the two behaviours that refute the unconditional statement ---------- *)
+(* ---------- what the two repairs establish ---------- *)
 (* a 55-byte ClientHello whose only extension is ECH (0xfe0d), no SNI *)
 Definition ch_ech_no_sni : list Z :=
   [1; 0; 0; 51; 3; 3] ++ repeat 7 32 ++ [0; 0; 2; 19; 1; 1; 0; 0; 8; 254; 13; 0; 4; 170; 187; 204; 221].
@@ -385,56 +436,146 @@ Proof.
   apply Forall_app. split; [apply repeat_bytes_ok; lia|repeat constructor; lia].
 Qed.
 
-(** FINDING (scrambler/never-sent/ech-without-sni): a well-formed ClientHello with an ECH
-    extension and no SNI is accepted by Write, yet HasData is false — and stays false whatever
-    is written afterwards: the ClientHello is never offered for sending. *)
-Lemma ech_without_sni_never_sent :
-  let r := find_sni_ech ch_ech_no_sni in
-  let s := fst (write (init true) ch_ech_no_sni) in
-  sCls r = 0 /\ sPos r = -1 /\ ePos r = 47 /\
-  snd (write (init true) ch_ech_no_sni) = 0 /\ 0 < zlen (buf s) /\ has_data s = false /\
-  forall p, p <> [] -> bytes_ok p -> has_data (fst (write s p)) = false.
-Proof.
-  cbv zeta. split; [vm_compute; reflexivity|]. split; [vm_compute; reflexivity|]. split; [vm_compute; reflexivity|].
-  split; [vm_compute; reflexivity|]. split; [vm_compute; reflexivity|]. split; [vm_compute; reflexivity|].
-  intros p Hp Hb.
-  assert (Es : fst (write (init true) ch_ech_no_sni) = mkS ch_ech_no_sni 0 true 55 Inv Inv 48 55) by (vm_compute; reflexivity).
-  rewrite Es. unfold write. cbn [buf wo scr send c0s c0e c1s c1e negb]. rewrite Z.eqb_refl. cbn [negb].
-  set (d := ch_ech_no_sni ++ p).
-  destruct (sCls (find_sni_ech d) =? 1); [reflexivity|].
-  destruct (Z.eqb_spec (sCls (find_sni_ech d)) 0) as [H0|H0]; cbn [negb]; [|reflexivity].
-  exfalso. assert (Hbd : bytes_ok d) by (apply Forall_app; split; [apply ch_ech_no_sni_bytes|assumption]).
-  destruct (find_sni_ech_spec d Hbd H0) as (_ & Hlen & _).
-  unfold d in Hlen. rewrite hl3_app in Hlen by (vm_compute; discriminate). rewrite zlen_app in Hlen.
-  replace (zlen ch_ech_no_sni) with 55 in Hlen by (vm_compute; reflexivity).
-  replace (hl3 ch_ech_no_sni) with 51 in Hlen by (vm_compute; reflexivity).
-  destruct p; [congruence|]. unfold zlen in Hlen. simpl length in Hlen. lia.
-Qed.
-
 (* a 56-byte ClientHello whose SNI extension holds a host_name of length 0 (not valid TLS,
    but accepted by findSNIAndECH) *)
 Definition ch_empty_host : list Z :=
   [1; 0; 0; 52; 3; 3] ++ repeat 7 32 ++ [0; 0; 2; 19; 1; 1; 0; 0; 9; 0; 0; 0; 5; 0; 3; 0; 0; 0].
 
-(** FINDING (scrambler/stuck/empty-host-name): after one pop has sent everything, HasData stays
-    true while PopCryptoFrame returns nil for every budget, also after further writes: whatever
-    is written later (a second ClientHello after a HelloRetryRequest) is never sent. *)
-Lemma empty_host_name_stuck :
-  let s0 := fst (write (init true) ch_empty_host) in
-  exists s, pop s0 (2 ^ 62 - 1) = Ok (s, Some (0, ch_empty_host)) /\
-    forall p m, let s' := fst (write s p) in has_data s' = true /\ pop s' m = Ok (s', None).
+(** Once the write that completes a ClientHello (findSNIAndECH succeeds on everything queued)
+    has happened on a stream that was still waiting for it, HasData is true: the ClientHello
+    is offered for sending, whatever extensions it has. (Before the repair
+    C09-scrambler-ech-without-sni this failed for ECH without SNI.) *)
+Lemma complete_hello_offered W e a1 b1 p :
+  bytes_ok (W ++ p) -> sCls (find_sni_ech (W ++ p)) = 0 ->
+  snd (write (mkS W 0 true e Inv a1 Inv b1) p) = 0 /\
+  has_data (fst (write (mkS W 0 true e Inv a1 Inv b1) p)) = true.
 Proof.
-  cbv zeta. exists (mkS ch_empty_host 56 true 56 56 56 Inv Inv). split; [vm_compute; reflexivity|].
-  intros p m. unfold write. cbn [buf wo scr send c0s c0e c1s c1e negb].
-  replace (56 =? Inv) with false by reflexivity. cbn [negb fst]. split.
-  - unfold has_data. cbn [buf wo scr send c0s c0e c1s c1e]. replace (56 =? 0) with false by reflexivity.
-    cbn [andb]. rewrite zlen_app. pose proof (zlen_nonneg p).
-    replace (zlen ch_empty_host) with 56 by (vm_compute; reflexivity). lia.
-  - unfold pop. cbn [buf wo scr send c0s c0e c1s c1e negb]. rewrite Z.eqb_refl.
-    replace (56 =? Inv) with false by reflexivity. cbn [negb].
-    unfold pop_cut. cbn [buf wo scr send c0s c0e c1s c1e].
-    destruct (Z.leb_spec (Z.min (max_data_len 56 m) (56 - 56)) 0); [reflexivity|lia].
+  intros Hb H0. destruct (find_sni_ech_spec (W ++ p) Hb H0) as (H4 & _ & _ & Hsl & Hsp & Hep).
+  unfold write. cbn [buf wo scr send c0s c0e c1s c1e negb]. rewrite Z.eqb_refl. cbn [negb].
+  rewrite H0. cbn [Z.eqb negb].
+  set (r := find_sni_ech (W ++ p)) in *.
+  assert (Hd : forall a b c d x, a <> Inv -> snd (mkS (W ++ p) 0 true x a b c d, 0) = 0 /\
+              has_data (fst (mkS (W ++ p) 0 true x a b c d, 0)) = true).
+  { intros a b c d x Ha. split; [reflexivity|]. unfold has_data. cbn [fst buf wo scr send c0s c0e c1s c1e].
+    rewrite ?Inv_val in *. replace (a =? -1) with false by lia. rewrite andb_false_r. lia. }
+  destruct ((sPos r =? -1) && (ePos r =? -1)) eqn:Eb.
+  { split; [reflexivity|]. unfold has_data. cbn [fst buf wo scr send c0s c0e c1s c1e andb]. lia. }
+  rewrite ?Inv_val in *.
+  assert (Hdiv : 0 <= sLen r / 2) by (apply Z.div_pos; lia).
+  destruct (Z.eqb_spec (sPos r) (-1)) as [Hs1|Hs1]; destruct (Z.ltb_spec 0 (ePos r)) as [He1|He1]; cbv beta iota;
+    match goal with |- context [if ?c then _ else _] => destruct c eqn:Ec end; apply Hd; rewrite ?Inv_val; lia.
 Qed.
+
+(** No wedge: in every reachable state, a pop with a budget of at least 11 bytes either yields a
+    frame or leaves a stream that reports HasData = false. (Before the repair
+    C09-scrambler-empty-cut an empty cut made PopCryptoFrame return nil forever.) *)
+Lemma mdl_pos off m : 11 <= m -> 1 <= max_data_len off m.
+Proof.
+  intros Hm. unfold max_data_len.
+  assert (Hv : 0 <= vlen off <= 8).
+  { unfold vlen. destruct (off <=? maxVarInt1); [lia|]. destruct (off <=? maxVarInt2); [lia|].
+    destruct (off <=? maxVarInt4); [lia|]. destruct (off <=? maxVarInt8); lia. }
+  destruct (Z.ltb_spec m (1 + vlen off + 1)); [lia|].
+  set (x := m - (1 + vlen off + 1)) in *. assert (1 <= x) by lia.
+  destruct (Z.eqb_spec (vlen x) 1) as [_|Hn]; [lia|].
+  assert (63 < x); [|lia].
+  destruct (Z.leb_spec x 63) as [Hle|Hgt]; [|assumption]. exfalso. apply Hn.
+  unfold vlen, maxVarInt1. destruct (Z.leb_spec x 63); [reflexivity|lia].
+Qed.
+
+Lemma base_pop_progress s m :
+  11 <= m ->
+  match base_pop s m with
+  | Ok (s', Some _) => True
+  | Ok (s', None) => s' = s /\ zlen (buf s) <= 0
+  | _ => False
+  end.
+Proof.
+  intros Hm. unfold base_pop. pose proof (mdl_pos (wo s) m Hm).
+  destruct (Z.leb_spec (Z.min (max_data_len (wo s) m) (zlen (buf s))) 0); [split; [reflexivity|lia]|exact I].
+Qed.
+
+Lemma no_wedge W fs s m :
+  sinv W fs s -> has_data s = true -> 11 <= m ->
+  match pop s m with
+  | Ok (s', Some _) => True
+  | Ok (s', None) => has_data s' = false
+  | _ => False
+  end.
+Proof.
+  intros Hinv Hh Hm. pose proof (pop_inv W fs s m Hinv) as Hpi.
+  destruct Hinv as (Htrue & Hwo & Hmode). unfold has_data in Hh.
+  destruct s as [b w sc e a0 a1 b0 b1]. cbn [buf wo scr send c0s c0e c1s c1e] in *.
+  destruct sc.
+  - destruct Hmode as (-> & Hmd). rewrite ?Inv_val in *.
+    destruct Hmd as [(-> & -> & -> & ->)|Hmd]; [rewrite ?Inv_val in Hh; cbn in Hh; discriminate|].
+    destruct Hmd as (H4 & Hs & Hw & Hle & Hc0 & Hc1 & Hcov). unfold cut_ok in Hc0, Hc1. rewrite ?Inv_val in *.
+    unfold pop in *. cbn [buf wo scr send c0s c0e c1s c1e negb] in *.
+    destruct (Z.eqb_spec w e) as [Hwe|Hwe].
+    + (* phase 2 *)
+      subst w. unfold drop_empty0, drop_empty1 in *. cbn [buf wo scr send c0s c0e c1s c1e] in *. rewrite ?Inv_val in *.
+      destruct (negb (a0 =? -1) && (a1 <=? a0)) eqn:Ea; cbn [buf wo scr send c0s c0e c1s c1e] in *; rewrite ?Inv_val in *.
+      * change (negb (-1 =? -1)) with false in *. cbv iota in *.
+        destruct (negb (b0 =? -1) && (b1 <=? b0)) eqn:Eb; cbn [buf wo scr send c0s c0e c1s c1e] in *; rewrite ?Inv_val in *.
+        -- change (negb (-1 =? -1)) with false in *. cbv iota in *.
+           pose proof (base_pop_progress (finish (mkS W e true e (-1) (-1) (-1) (-1))) m Hm) as Hp.
+           destruct (base_pop _ m) as [[s' [f|]]|c|]; try assumption.
+           destruct Hp as (-> & Hz). unfold has_data, finish in *. cbn [buf wo scr send c0s c0e c1s c1e andb] in *. lia.
+        -- destruct (negb (b0 =? -1)) eqn:Eb2.
+           ++ unfold pop_cut in *. cbn [buf wo scr send c0s c0e c1s c1e] in *.
+              pose proof (mdl_pos b0 m Hm).
+              destruct (Z.leb_spec (Z.min (max_data_len b0 m) (b1 - b0)) 0); [lia|].
+              destruct (negb (in_buf W b0 _)); [contradiction|exact I].
+           ++ pose proof (base_pop_progress (finish (mkS W e true e (-1) (-1) b0 b1)) m Hm) as Hp.
+              destruct (base_pop _ m) as [[s' [f|]]|c|]; try assumption.
+              destruct Hp as (-> & Hz). unfold has_data, finish in *. cbn [buf wo scr send c0s c0e c1s c1e andb] in *. lia.
+      * destruct (negb (a0 =? -1)) eqn:Ea2.
+        -- unfold pop_cut in *. cbn [buf wo scr send c0s c0e c1s c1e] in *.
+           pose proof (mdl_pos a0 m Hm).
+           destruct (Z.leb_spec (Z.min (max_data_len a0 m) (a1 - a0)) 0); [lia|].
+           destruct (negb (in_buf W a0 _)); [contradiction|exact I].
+        -- destruct (negb (b0 =? -1) && (b1 <=? b0)) eqn:Eb; cbn [buf wo scr send c0s c0e c1s c1e] in *; rewrite ?Inv_val in *.
+           ++ change (negb (-1 =? -1)) with false in *. cbv iota in *.
+              pose proof (base_pop_progress (finish (mkS W e true e a0 a1 (-1) (-1))) m Hm) as Hp.
+              destruct (base_pop _ m) as [[s' [f|]]|c|]; try assumption.
+              destruct Hp as (-> & Hz). unfold has_data, finish in *. cbn [buf wo scr send c0s c0e c1s c1e andb] in *. lia.
+           ++ destruct (negb (b0 =? -1)) eqn:Eb2.
+              ** unfold pop_cut in *. cbn [buf wo scr send c0s c0e c1s c1e] in *.
+                 pose proof (mdl_pos b0 m Hm).
+                 destruct (Z.leb_spec (Z.min (max_data_len b0 m) (b1 - b0)) 0); [lia|].
+                 destruct (negb (in_buf W b0 _)); [contradiction|exact I].
+              ** pose proof (base_pop_progress (finish (mkS W e true e a0 a1 b0 b1)) m Hm) as Hp.
+                 destruct (base_pop _ m) as [[s' [f|]]|c|]; try assumption.
+                 destruct Hp as (-> & Hz). unfold has_data, finish in *. cbn [buf wo scr send c0s c0e c1s c1e andb] in *. lia.
+    + (* phase 1 *)
+      rewrite ?Inv_val in *.
+      set (sel := if negb (a0 =? -1) && (w <? a0) then (a0, a1)
+                  else if negb (b0 =? -1) && (w <? b0) then (b0, b1) else (-1, -1)) in *.
+      assert (Hsel : fst sel = -1 \/ w < fst sel).
+      { unfold sel. destruct (negb (a0 =? -1) && (w <? a0)) eqn:E1; cbn [fst]; [right; lia|].
+        destruct (negb (b0 =? -1) && (w <? b0)) eqn:E2; cbn [fst]; [right; lia|left; reflexivity]. }
+      destruct sel as [ns ne]. cbn [fst] in Hsel.
+      pose proof (mdl_pos w m Hm).
+      destruct (Z.leb_spec (Z.min (max_data_len w m) ((if ns =? -1 then e else ns) - w)) 0) as [Hn|Hn].
+      * exfalso. destruct (Z.eqb_spec ns (-1)); lia.
+      * destruct (negb (in_buf W w _)); [contradiction|exact I].
+  - unfold pop in *. cbn [scr negb] in *.
+    pose proof (base_pop_progress (mkS b w false e a0 a1 b0 b1) m Hm) as Hp.
+    destruct (base_pop _ m) as [[s' [f|]]|c|]; try assumption.
+    destruct Hp as (-> & Hz). cbn [buf andb] in *. lia.
+Qed.
+
+(* regression: the two former counterexamples are now handled *)
+Lemma ech_without_sni_now_sent :
+  exists s W fs, run (init true) [] [] [SWrite ch_ech_no_sni; SPop 1200; SPop 1200] = Ok (s, W, fs)
+    /\ has_data (fst (write (init true) ch_ech_no_sni)) = true
+    /\ has_data s = false /\ fs = [(0, firstn 48 ch_ech_no_sni); (48, skipn 48 ch_ech_no_sni)].
+Proof. do 3 eexists. split; [vm_compute; reflexivity|]. split; [vm_compute; reflexivity|]. split; vm_compute; reflexivity. Qed.
+
+Lemma empty_host_name_now_drains :
+  exists s W fs, run (init true) [] [] [SWrite ch_empty_host; SPop 1200; SPop 1200; SWrite [9; 9]; SPop 1200] = Ok (s, W, fs)
+    /\ has_data s = false /\ fs = [(0, ch_empty_host); (56, [9; 9])].
+Proof. do 3 eexists. split; [vm_compute; reflexivity|]. split; vm_compute; reflexivity. Qed.
 
 Lemma ops_example : Forall op_ok [SWrite ch_ech_no_sni; SPop 1200; SWrite [1; 2]; SPop 3].
 Proof.
